@@ -29,7 +29,9 @@ EXTENDS Integers, Sequences, FiniteSets, TLC
 CONSTANTS NP,       \* producer threads
           NC,       \* blocking emits per producer
           Faults,   \* TRUE: a consumer may raise
-          DelTs     \* TRUE: `del thread_state.asynchronous` (the pinned tree); FALSE: reset to False
+          DelTs,    \* TRUE: `del thread_state.asynchronous` (the pinned tree); FALSE: reset to False
+          LeakFlag  \* FALSE: the tree (emit restores the calling thread's flag in a finally clause); TRUE: the flag is not
+                    \* restored when the asynchronous emit raises (refuted by FlagRestored / WaitsForConsumer)
 
 Procs == 1 .. NP
 
@@ -41,19 +43,35 @@ VARIABLES pc,       \* pc[p]: "idle" | "blocked"   (the producer thread)
           ts,       \* the loop thread's thread_state.asynchronous: "unset" | "true" | "false"
           rq,       \* the loop's ready queue: <<kind, p>>, kind in "fstart" "frun" "co" "ffinal"
           results,  \* history: <<p, call number, outcome>> in the order the emits returned
-          delivered \* history: <<p, call number>> in the order the consumer was called
-vars == <<pc, ncall, cst, busy, outcome, ts, rq, results, delivered>>
+          delivered,\* history: <<p, call number>> in the order the consumer was called
+          cflag     \* cflag[p]: producer thread p's own thread_state.asynchronous (emit takes the blocking path only if it is unset)
+vars == <<pc, ncall, cst, busy, outcome, ts, rq, results, delivered, cflag>>
 
 Init == /\ pc = [p \in Procs |-> "idle"] /\ ncall = [p \in Procs |-> 0] /\ cst = [p \in Procs |-> "none"]
         /\ busy = {} /\ outcome = [p \in Procs |-> "ok"] /\ ts = "unset" /\ rq = <<>> /\ results = <<>> /\ delivered = <<>>
+        /\ cflag = [p \in Procs |-> FALSE]
 
 \* a producer thread calls emit: f is handed to the loop, the thread blocks
 Call(p) ==
     /\ pc[p] = "idle" /\ ncall[p] < NC
     /\ pc' = [pc EXCEPT ![p] = "blocked"] /\ ncall' = [ncall EXCEPT ![p] = @ + 1]
-    /\ cst' = [cst EXCEPT ![p] = "queued"] /\ outcome' = [outcome EXCEPT ![p] = "ok"]
-    /\ rq' = Append(rq, <<"fstart", p>>)
-    /\ UNCHANGED <<busy, ts, results, delivered>>
+    /\ outcome' = [outcome EXCEPT ![p] = "ok"]
+    /\ IF cflag[p]
+       THEN \* the thread believes it is inside asynchronous stream code: the consumer is called right here, in the producer
+            \* thread, and emit returns what it returned without waiting
+            /\ cst' = [cst EXCEPT ![p] = "signalled"] /\ busy' = busy \cup {p}
+            /\ delivered' = Append(delivered, <<p, ncall[p] + 1>>) /\ rq' = rq
+       ELSE /\ cst' = [cst EXCEPT ![p] = "queued"] /\ rq' = Append(rq, <<"fstart", p>>)
+            /\ UNCHANGED <<busy, delivered>>
+    /\ UNCHANGED <<ts, results, cflag>>
+
+\* producer thread p, between two blocking emits, pushes an element into an asynchronous pipeline of its own (emit(x,
+\* asynchronous=True) / a Stream(asynchronous=True) on a loop run by that thread): the flag is set for the duration of the call
+\* and put back afterwards -- also when a function of that pipeline raises
+AsyncEmit(p, fails) ==
+    /\ pc[p] = "idle"
+    /\ cflag' = [cflag EXCEPT ![p] = IF LeakFlag /\ fails THEN TRUE ELSE cflag[p]]
+    /\ UNCHANGED <<pc, ncall, cst, busy, outcome, ts, rq, results, delivered>>
 
 \* the loop runs the callback at the head of its queue
 Step ==
@@ -62,12 +80,12 @@ Step ==
            p == Head(rq)[2]
        IN CASE k = "fstart" ->            \* f starts and yields gen.moment
                  /\ cst' = [cst EXCEPT ![p] = "moment"] /\ rq' = Append(Tail(rq), <<"frun", p>>)
-                 /\ UNCHANGED <<pc, ncall, busy, outcome, ts, results, delivered>>
+                 /\ UNCHANGED <<pc, ncall, busy, outcome, ts, results, delivered, cflag>>
             [] k = "frun" ->              \* f and _ set the flag, _emit calls the consumer, which returns an awaitable
                  /\ ts' = "true" /\ cst' = [cst EXCEPT ![p] = "suspended"]
                  /\ busy' = busy \cup {p} /\ delivered' = Append(delivered, <<p, ncall[p]>>)
                  /\ rq' = Tail(rq)
-                 /\ UNCHANGED <<pc, ncall, outcome, results>>
+                 /\ UNCHANGED <<pc, ncall, outcome, results, cflag>>
             [] k = "co" ->                \* _ resumes with the consumer's result / exception and runs its finally clause
                  /\ cst' = [cst EXCEPT ![p] = "codone"]
                  /\ IF DelTs
@@ -76,10 +94,10 @@ Step ==
                          ELSE /\ ts' = "unset" /\ outcome' = outcome
                     ELSE /\ ts' = "false" /\ outcome' = outcome
                  /\ rq' = Append(Tail(rq), <<"ffinal", p>>)
-                 /\ UNCHANGED <<pc, ncall, busy, results, delivered>>
+                 /\ UNCHANGED <<pc, ncall, busy, results, delivered, cflag>>
             [] k = "ffinal" ->            \* f resumes: records result / error, resets the flag, wakes the producer thread
                  /\ ts' = "false" /\ cst' = [cst EXCEPT ![p] = "signalled"] /\ rq' = Tail(rq)
-                 /\ UNCHANGED <<pc, ncall, busy, outcome, results, delivered>>
+                 /\ UNCHANGED <<pc, ncall, busy, outcome, results, delivered, cflag>>
 
 \* the consumers of the elements of the producers in `ps` (a sequence without repetition) finish in one loop callback,
 \* `bad` of them by raising
@@ -91,17 +109,17 @@ Finish(ps, bad) ==
     /\ cst' = [p \in Procs |-> IF \E i \in 1 .. Len(ps) : ps[i] = p THEN "resumable" ELSE cst[p]]
     /\ outcome' = [p \in Procs |-> IF p \in bad THEN "consumer" ELSE outcome[p]]
     /\ rq' = rq \o [i \in 1 .. Len(ps) |-> <<"co", ps[i]>>]
-    /\ UNCHANGED <<pc, ncall, ts, results, delivered>>
+    /\ UNCHANGED <<pc, ncall, ts, results, delivered, cflag>>
 
 \* the producer thread wakes up: emit returns or raises
 Return(p) ==
     /\ pc[p] = "blocked" /\ cst[p] = "signalled"
     /\ pc' = [pc EXCEPT ![p] = "idle"] /\ cst' = [cst EXCEPT ![p] = "none"]
     /\ results' = Append(results, <<p, ncall[p], outcome[p]>>)
-    /\ UNCHANGED <<ncall, busy, outcome, ts, rq, delivered>>
+    /\ UNCHANGED <<ncall, busy, outcome, ts, rq, delivered, cflag>>
 
 Seqs(S) == {<<>>} \cup {<<a>> : a \in S} \cup {<<a, b>> : a \in S, b \in S} \cup {<<a, b, c>> : a \in S, b \in S, c \in S}
-Next == (\E p \in Procs : Call(p) \/ Return(p)) \/ Step
+Next == (\E p \in Procs : Call(p) \/ Return(p) \/ (\E f \in BOOLEAN : AsyncEmit(p, f))) \/ Step
         \/ \E ps \in Seqs(Procs) : \E bad \in SUBSET Procs : Finish(ps, bad)
 Spec == Init /\ [][Next]_vars
 FairSpec == Spec /\ WF_vars(Step) /\ \A p \in Procs : WF_vars(Return(p)) /\ WF_vars(Finish(<<p>>, {}))
@@ -114,6 +132,8 @@ WaitsForConsumer == \A p \in Procs : cst[p] \in {"codone", "signalled"} => p \no
 ReturnedAfterDelivery == \A i \in 1 .. Len(results) : \E j \in 1 .. Len(delivered) : delivered[j] = <<results[i][1], results[i][2]>>
 \* C03 / C16: emit raises exactly when the consumer raised -- never on its own
 NoSpuriousError == \A i \in 1 .. Len(results) : results[i][3] # "attr"
+\* C16: an element that fails in one pipeline leaves the thread as it found it (the next blocking emit blocks)
+FlagRestored == \A p \in Procs : ~cflag[p]
 \* C02: each producer's elements reach the consumer in the order it emitted them, each once
 PerProducerOrder == \A i, j \in 1 .. Len(delivered) : (i < j /\ delivered[i][1] = delivered[j][1]) => delivered[i][2] < delivered[j][2]
 \* C03 (liveness): whenever all consumers complete, every blocking emit returns
